@@ -106,7 +106,16 @@ static std::string run(const Case& k, vf::Ctx& ctx) {
     *xg::find(pf.numerical, "min_edge_length") = "0.27";
     *xg::find(pf.numerical, "contact_cutoff_adhesion") = "0.05";
     *xg::find(pf.numerical, "contact_cutoff_repulsion") = "0.05";
-    *xg::find(pf.numerical, "damping_coefficient") = "5.0";
+    {
+        // the generated time steps span three decades: density ~ dt^2 and damping ~ dt make the trajectory per iteration the same for all of
+        // them (similarity in time), so that every run is as stable as the dt = 1e-3 reference instead of blowing up for the large steps
+        const double f = strtod(k.dt_txt.c_str(), nullptr) / 1e-3;
+        char b[64];
+        snprintf(b, sizeof b, "%.17g", 5.0 * f);
+        *xg::find(pf.numerical, "damping_coefficient") = b;
+        snprintf(b, sizeof b, "%.17g", 1.0 * f * f);
+        for (auto& ctp : pf.cell_types) *xg::find(ctp.tags, "cell_mass_density") = b;
+    }
     {
         std::ofstream o(dir + "/p.xml");
         o << xg::render(pf, 3);
